@@ -10,6 +10,12 @@ Part 3 (mesh level): with the law rotated accordingly (`C' = P C Pᵀ`; nothing 
 energy form is invariant, `K' = R K Rᵀ`, and the solution of the moved problem is the moved solution (by the
 uniqueness theorem of C04).
 -/
+import Mathlib.Analysis.Calculus.Deriv.Basic
+import Mathlib.Analysis.Calculus.Deriv.Mul
+import Mathlib.Analysis.Calculus.Deriv.Add
+import Mathlib.Analysis.Calculus.Deriv.Comp
+import Mathlib.Tactic.Linarith
+import EasyFEAVerif.Gen.C10.Fiber
 import EasyFEAVerif.Core.KelvinRotSound
 import EasyFEAVerif.Gen.C10.Pmat
 import EasyFEAVerif.Model.Patch
@@ -278,3 +284,51 @@ theorem solution_moves (known : ι → Prop) (A A' : ι → ι → K) (b b' x x'
 end solution
 
 end EasyFEAVerif.Props.C10
+
+/-! Beam members and the direction of their fiber (`_EulerBernoulli._Get_fiber_sign_e_pg`, `Get_beam_B_e_pg`):
+a member lying on the x-axis is differentiated along the global x-axis, its beam frame follows the fiber `s`, with
+`x = x0 + σ s`, `σ = ±1`. -/
+namespace EasyFEAVerif.Props.C10.Fiber
+
+/-- the derivative along the fiber is `σ` times the derivative along the global axis: this is the factor
+`_Get_fiber_sign_e_pg` puts on the odd-order derivatives -/
+theorem deriv_along_fiber (f : ℝ → ℝ) (f' x0 σ s : ℝ) (hf : HasDerivAt f f' (x0 + σ * s)) :
+    HasDerivAt (fun t => f (x0 + σ * t)) (σ * f') s := by
+  have hin : HasDerivAt (fun t : ℝ => x0 + σ * t) σ s := by
+    simpa using ((hasDerivAt_id s).const_mul σ).const_add x0
+  have h := hf.comp s hin
+  have h2 : HasDerivAt (fun t => f (x0 + σ * t)) (f' * σ) s := h
+  exact h2.congr_deriv (mul_comm f' σ)
+
+/-- Timoshenko shear strain of a rigid rotation `θ` of the member about its first end: in the member's own axes the
+transverse displacement is `v = θ s` and the rotation is `θ`; `v` as a function of the global abscissa is `θ σ (x - x0)`.
+With the derivative taken along the fiber (`σ · dv/dx`) the shear strain vanishes … -/
+theorem rigid_rotation_shear_free (θ σ x0 x : ℝ) (hσ : σ * σ = 1) :
+    HasDerivAt (fun y => θ * σ * (y - x0)) (θ * σ) x ∧ σ * (θ * σ) - θ = 0 := by
+  refine ⟨?_, ?_⟩
+  · simpa using ((hasDerivAt_id x).sub_const x0).const_mul (θ * σ)
+  · have : σ * (θ * σ) = θ * (σ * σ) := by ring
+    rw [this, hσ]; ring
+
+/-- … whereas with the global derivative (the code before the `fix:` commit b28c5e5) a member described towards `-x`
+(`σ = -1`) gets the shear strain `-2 θ`: a rigid rotation has strain energy -/
+theorem rigid_rotation_shear_unfixed (θ : ℝ) : θ * (-1) - θ = -2 * θ := by ring
+
+/-- axial force: `N = EA du/ds` with `u` the displacement along the fiber, `u = σ u_x`; in terms of the global quantities
+`du/ds = σ · σ · du_x/dx = du_x/dx`, whereas differentiating along the global axis gives `σ du_x/dx`: the wrong sign for `σ = -1` -/
+theorem axial_strain_along_fiber (σ g : ℝ) (hσ : σ * σ = 1) : σ * (σ * g) = g ∧ ((-1 : ℝ) * g = -g) := by
+  constructor
+  · rw [← mul_assoc, hσ, one_mul]
+  · ring
+
+end EasyFEAVerif.Props.C10.Fiber
+
+namespace EasyFEAVerif.Props.C10.Fiber
+
+/-- the statements the three theorems above describe (regenerated on every run): the orientation factor and the places where the
+beam operators apply it before the projection on the beam frame -/
+theorem fiberForms_spec : (EasyFEAVerif.Gen.C10.fiberForms.map Prod.fst) =
+    ["_Get_fiber_sign_e_pg", "EulerBernoulli.Get_beam_B_e_pg", "EulerBernoulli.Get_beam_shear_B_e_pg", "Timoshenko.Get_beam_B_e_pg"] := by
+  decide
+
+end EasyFEAVerif.Props.C10.Fiber
